@@ -259,7 +259,7 @@ def rendered_refs_job(job):
     try:
         ns = [rng.sample(["A", "B", "C"], rng.randint(1, 3)) for _ in range(rng.randint(1, 3))]
         tabs = [(s + 1, t + 1) for s in range(len(ns)) for t in range(len(ns[s]))]
-        pool = ["x", "y", "z", "", "w", "v", "u", "t", "s", "q", "r", "p"]
+        pool = ["x", "y", "z", "", "w", "v", "u", "t", "s", "q", "r", "p", "o", "n"]
         labs = [[[rng.choice(pool) for _ in range(c09.NL)] for _ in sh] for sh in ns]
         refs = []
         for _ in range(30):
